@@ -44,6 +44,7 @@ OBLIGATIONS = [
     # extension: every branch of compute_orthonormal_basis, orthonormality
     "C10_tie_ortho_branches", "C10_ortho_branches", "C10_ortho_branches_zero_pivot_refuted", "C10_orthonormal_branches",
     "C10_orthonormal", "C10_orthonormal_metric_refuted", "C10_basis_collinear_branches", "C10_mixing_orthogonal_branches",
+    "C10_orthonormal_nonzero_direction",
     # extension: every copy of _center_xi_realizations, the mixture model
     "C10_script_all_classes", "C10_gauge_mixture", "C10_mixture_orthogonal", "C10_mixture_sources_centring_refuted",
 ]
